@@ -13,11 +13,11 @@ TRUST = ("Trusted base: the harness's own reference models/oracles and recording
          "Only executions the workload produced are decided; the evidence file says how many and which kinds.")
 
 P = {
- "c01": ("exploration", "relational oracle between the drawing paths (draw on a draw_iter-only target, draw on a native-fill target that pulls every colour, draw on a native-fill target that skips invisible colours with Iterator::nth, pixels() via draw_iter) on bounded/unbounded boxes and through cropped/clipped/translated views of a parent; recorded pixel maps compared; pixels() consumed through count/last/fold/nth",
+ "c01": ("exploration", "relational oracle between the drawing paths (draw on a draw_iter-only target, draw on a native-fill target that pulls every colour, draw on a native-fill target that skips invisible colours with Iterator::nth, pixels() via draw_iter) on bounded/unbounded boxes and through cropped/clipped/translated views of a parent; recorded pixel maps compared, also on targets that consume with for_each (Iterator::fold); pixels() consumed through count/last/fold/nth",
          "Every generated drawable (8 styled primitives, polylines, raw images and sub-images in several colour depths, text in built-in and custom fonts) is rendered by the real code on two recording targets and through pixels(); the final pixel maps must be equal. Exhaustive over small sizes/styles, random beyond.", "4 C01"),
  "c02": ("exploration", "event-log invariant: every point a drawable touches on an unbounded recording target must satisfy bounding_box().contains; transparent styles touch nothing",
          "Touched-point sets of real draw() runs are checked against bounding_box() for all drawables incl. text in every built-in font of the working tree x decorations x baselines x alignments x line heights.", "4 C02"),
- "c03": ("exploration", "online reference-model monitor: set-theoretic model of adapter stacks (clipped/cropped/translated/color_converted, depth <= 3) run in lockstep with random operation histories; parent state, event log and bounding boxes compared after every operation",
+ "c03": ("exploration", "online reference-model monitor: set-theoretic model of adapter stacks (clipped/cropped/translated/color_converted, depth <= 3) run in lockstep with random operation histories; parent state, event log and bounding boxes compared after every operation; parents pulling with next() or consuming with for_each, streams with exact, partial and absent size hints",
          "Random histories of draw_iter/fill_contiguous/fill_solid/clear with unique colours per write through all adapter nestings up to depth 3 over native and default-fill parents with arbitrary boxes; the innermost parent's pixel map must equal the model's after each operation, nothing outside the composed clip may reach it, and the trait defaults must emit exactly zip(row-major points, colours).", "4 C03"),
  "c04": ("fault_enumeration", "fault injection at the DrawTarget boundary: for every drawable/adapter stack the fault-free call log is recorded, then each k-th call is failed with a unique error value; offline check of the event log (no call after the fault, prefix equals fault-free log, returned error identical)",
          "Enumerates the failing call index k over the n calls of each fault-free run (all k when n <= 48, else first/last/random 16 each).", "4 C04"),
@@ -33,7 +33,7 @@ P = {
          "7 raw widths x 2 data orders x small sizes exhaustive x random bytes x offsets x sub-image areas (nested twice).", "4 C09"),
  "c10": ("exploration", "history + executable model: random write histories on Framebuffer instantiations (7 depths x 2 orders x several sizes, exact and oversized buffers) with a reference map updated in lockstep; pixel(), data(), as_image() (drawn on unbounded and bounded targets) compared after every operation",
          "Read-your-writes, no write outside, tail bytes untouched, layout equals ImageRaw's.", "4 C10"),
- "c11": ("exploration", "independent encoder of the two documented layouts as reference model for store/load; iterator positions and size_hint after random next()/nth() mixes compared with load(i); the iterator consumed through count/last/fold/skip; documented bit widths",
+ "c11": ("exploration", "independent encoder of the two documented layouts as reference model for store/load; iterator positions and size_hint after random next()/nth() mixes compared with load(i); the iterator consumed through count/last/fold/skip, also after an overshooting nth(huge); documented bit widths",
          "7 raw types x 2 orders x all indices in buffers 0..=L x all values up to 16 bits (exhaustive) / boundary+random 24/32 bits x background patterns.", "4 C11"),
  "c12": ("exploration", "exhaustive enumeration of every colour value and every raw value of all 14 colour types against the documented bit layouts (independent model); raw values obtained with RawData::load from packed bytes in both data orders",
          "Quick: all values up to 16 bits, per-channel exhaustive + random for 24-bit types; thorough: every value.", "4 C12"),
@@ -43,9 +43,9 @@ P = {
          "All built-in fonts of the working tree x every mapped character + unmapped ones x colour/decoration combinations; custom fonts with spacing and odd atlases.", "4 C14"),
  "c15": ("exploration", "relational oracles on recorded pixel maps and returned positions: draw vs measure_string, chained drawing vs concatenation, alignment/baseline geometry of the painted line boxes, multi-line vs separately drawn lines, CRLF vs LF, same position and visible part on bounded targets",
          "Strings incl. empty lines/trailing newline/CRLF/unmapped characters x built-in fonts x alignments x baselines x line heights x decorations x positions.", "4 C15"),
- "c16": ("exploration", "reference model (explicit point sets / i64 interval pairs) compared with the public Rectangle methods (contains through the inherent method and the ContainsPoint trait, points() also through count/last/fold/nth from partly consumed states); exhaustive over a small grid, random up to +-2^20",
+ "c16": ("exploration", "reference model (explicit point sets / i64 interval pairs) compared with the public Rectangle methods (contains and offset through the inherent methods and the ContainsPoint/OffsetOutline traits, points() also through count/last/fold/nth from partly consumed states); exhaustive over a small grid, random up to +-2^20",
          "All ordered pairs of grid rectangles incl. zero sizes, every rectangle x anchors x sizes x offsets, plus random large rectangles.", "4 C16"),
- "c17": ("exploration", "exact integer oracle of the statement over the point sequences of Line::points() and Styled<Line>::pixels(): end points, count, unit steps, half-pixel error bound, thick-line containment/uniqueness/distance/extent/width bounds for all three stroke alignments; draw() on unbounded and bounded targets == pixels()",
+ "c17": ("exploration", "exact integer oracle of the statement over the point sequences of Line::points() and Styled<Line>::pixels(): end points, count, unit steps, half-pixel error bound, thick-line containment/uniqueness/distance/extent/width bounds for all three stroke alignments; draw() on unbounded and bounded targets == pixels(); both iterators consumed through count/last/fold/nth/skip from partly consumed states",
          "All end points in a grid x widths (exhaustive) plus random long lines.", "4 C17"),
  "c18": ("exploration", "exact/f64 geometric oracles (doubled-coordinate distance for circles, closest-point distance to ellipse/corner curves with guard bands, angle test for arcs/sectors) plus equivalence relations between primitives; both arithmetic back-ends",
          "Exhaustive over diameters/axis pairs/radius combinations/1-degree angle grids up to the stated bounds, random fractional angles; default and fixed_point builds.", "4 C18"),
